@@ -65,6 +65,12 @@ def rawOpt (k : Bytes) (b : Option Bytes) : List (Bytes × Field) :=
   | none => []
   | some x => if x = [] then [] else [(k, .raws tcRaw .inl [x])]
 
+/-- `CAddMessage(name, ref)`: nothing for a NULL reference -/
+def optMsg (k : Bytes) (d : Option Msg) : List (Bytes × Field) :=
+  match d with
+  | none => []
+  | some m => [(k, .msgs .inl [m])]
+
 def repN {α} (xs : List α) : Rep := if xs.length = 1 then .inl else .arr
 
 mutual
@@ -79,10 +85,9 @@ def toArchive : Filter → Msg
   | .raw fn idx op tc val dflt =>
       .mk qfRawData (valueHdr fn idx ++ aInt8 kOp op ++ cInt32 kType tc tcAny ++ rawOpt kVal val ++ rawOpt kDef dflt)
   | .msgAny fn idx dflt =>
-      .mk qfMessage (valueHdr fn idx ++ (match dflt with | none => [] | some d => [(kDefmsg, .msgs .inl [d])]))
+      .mk qfMessage (valueHdr fn idx ++ optMsg kDefmsg dflt)
   | .msgKid fn idx kid dflt =>
-      .mk qfMessage (valueHdr fn idx ++ ((kKid, .msgs .inl [toArchive kid]) ::
-        (match dflt with | none => [] | some d => [(kDefmsg, .msgs .inl [d])])))
+      .mk qfMessage (valueHdr fn idx ++ ((kKid, .msgs .inl [toArchive kid]) :: optMsg kDefmsg dflt))
   | .minMatch n kids => .mk qfMinMatch (kidsField kids ++ cInt32 kMin n muscleNoLimit)
   | .maxMatch n kids => .mk qfMaxMatch (kidsField kids ++ cInt32 kMax n 0)
   | .xor kids => .mk qfXor (kidsField kids)
